@@ -33,6 +33,11 @@ pub struct StoreCase {
     /// re-add entries in their middle
     #[serde(default)]
     pub hub_prefix: u8,
+    /// > 0: before the generated operations, `churn` rounds of "label 0 attacks label 1+k%(u-1), that label is
+    /// removed and created again": every round leaves one stale entry in the adjacency lists of label 0, so
+    /// that lists of a thousand entries (thresholds such as 1024) exist when the generated operations start
+    #[serde(default)]
+    pub churn: u16,
     pub initial: Vec<u8>,
     pub ops: Vec<StoreOp>,
 }
@@ -283,6 +288,19 @@ impl Store {
             }
             rec.class(&format!("hub-with-{}+-attackers-from-the-start", (case.hub_prefix / 32) * 32));
         }
+        if case.churn > 0 && case.universe >= 2 {
+            all_ops.push(StoreOp::NewArg(0));
+            for k in 0..case.churn as usize {
+                let l = 1 + (k % (case.universe as usize - 1)) as u8;
+                all_ops.push(StoreOp::NewArg(l));
+                all_ops.push(StoreOp::NewAtt(0, l));
+                if k % 2 == 0 {
+                    all_ops.push(StoreOp::NewAtt(l, 0));
+                }
+                all_ops.push(StoreOp::RemArg(l));
+            }
+            rec.class(&format!("churn-{}+-stale-entries-from-the-start", (case.churn / 256) * 256));
+        }
         all_ops.extend(case.ops.iter().cloned());
         for (k, op) in all_ops.iter().enumerate() {
             rec.eval();
@@ -353,11 +371,14 @@ impl Prop for Store {
                 let len = if universe > 8 { maxlen * 2 } else { maxlen };
                 // one large-universe case in three starts with a hub of 30..universe-1 attackers
                 let hub = if universe >= 40 { prop_oneof![2 => Just(0u8), 1 => 30u8..universe].boxed() } else { Just(0u8).boxed() };
-                (vec(0..universe, 0..=init_max), vec(store_op(universe), 0..=len), hub).prop_map(move |(initial, ops, hub_prefix)| StoreCase {
+                // one small-universe history in 400 starts with 1000-1040 rounds of churn on label 0
+                let churn = if universe <= 8 { prop_oneof![399 => Just(0u16), 1 => 1000u16..1040].boxed() } else { Just(0u16).boxed() };
+                (vec(0..universe, 0..=init_max), vec(store_op(universe), 0..=len), hub, churn).prop_map(move |(initial, ops, hub_prefix, churn)| StoreCase {
                     universe,
                     string_labels,
                     coarse,
                     hub_prefix,
+                    churn,
                     initial,
                     ops,
                 })
@@ -398,7 +419,7 @@ impl Prop for Store {
             frontier = next;
         }
         for (i, ops) in frontier.into_iter().enumerate() {
-            out.push(StoreCase { universe: 2, string_labels: i % 3 == 0, coarse: i % 3 == 1, hub_prefix: 0, initial: vec![], ops });
+            out.push(StoreCase { universe: 2, string_labels: i % 3 == 0, coarse: i % 3 == 1, hub_prefix: 0, churn: 0, initial: vec![], ops });
         }
         (out, format!("all {}-step histories over two labels (12 operations per step), every prefix compared", maxlen))
     }
